@@ -1,6 +1,7 @@
 package verifsim
 
 import (
+	"sort"
 	"context"
 	"fmt"
 	"strings"
@@ -72,6 +73,7 @@ func (e2Engine) Gen(prop string, seed int64, tier string) *Plan {
 		p.Steps = append(p.Steps, Step{K: "settle"})
 		p.Cfg["template"] = 1
 		insertCrashMidPush(p, seed)
+		c15Branchable(p, seed)
 		return p
 	}
 	n := 6 + r.IntN(30)
@@ -108,7 +110,16 @@ func (e2Engine) Gen(prop string, seed int64, tier string) *Plan {
 	}
 	p.Steps = append(p.Steps, Step{K: "settle"})
 	insertCrashMidPush(p, seed)
+	c15Branchable(p, seed)
 	return p
+}
+
+// c15Branchable makes the collection of some plans branchable (own stream of choices): every write then makes
+// a collection-level commit too, which is pushed and retried like the document commits.
+func c15Branchable(p *Plan, seed int64) {
+	if rb := newRng(seed, 152); p.Cfg["col"] == 0 && chance(rb, 20) {
+		p.Cfg["col"] = 1
+	}
 }
 
 // insertCrashMidPush adds "B crashes while it handles a push" steps after some writes (own stream of choices).
@@ -636,7 +647,7 @@ func (r *c15Run) settle(i int, maxInterval time.Duration) {
 			r.net.deliver(pr, true)
 		}
 		synctest.Wait()
-		if r.equalAB() && len(r.net.pendingSorted()) == 0 {
+		if r.equalAB() && len(r.net.pendingSorted()) == 0 && (r.p.cfg("col", 0) != 1 || r.colHeads(r.a) == r.colHeads(r.b)) {
 			break
 		}
 		time.Sleep(time.Second)
@@ -691,6 +702,20 @@ func (r *c15Run) settle(i int, maxInterval time.Duration) {
 			time.Since(t0), strings.Join(sortedCopy(diffs), "; "))
 		return
 	}
+	if r.p.cfg("col", 0) == 1 && len(r.excused) == 0 {
+		ha, hb := r.colHeads(r.a), r.colHeads(r.b)
+		r.res.Stats["collection_level_heads_compared"]++
+		if ha != hb {
+			cls := "plain"
+			if r.res.Stats["b_crashed"] > 0 {
+				cls = "b-crashed"
+			}
+			r.res.violate(r.prop, "not-delivered", "not-delivered/collection-level-commit/"+cls, i,
+				"%v of simulated time after the last fault, with B reachable and no further writes, the heads of the collection-level history differ: A=[%s] B=[%s]",
+				time.Since(t0), ha, hb)
+			return
+		}
+	}
 	r.res.Stats["converged"]++
 	if reps, err := r.a.Peer.GetAllReplicators(r.a.reqCtx()); err == nil {
 		for _, rp := range reps {
@@ -701,6 +726,21 @@ func (r *c15Run) settle(i int, maxInterval time.Duration) {
 	}
 	kvs, _ := scanPrefix(r.a.ctx, r.a.Store.base, "/db/ps/")
 	_ = kvs
+}
+
+// colHeads: the heads of the collection-level history of a branchable collection, as the node stores them.
+func (r *c15Run) colHeads(n *e2Node) string {
+	kvs, err := scanPrefix(n.ctx, n.Store.base, "/db/heads/c/")
+	if err != nil {
+		return "ERR " + err.Error()
+	}
+	var cids []string
+	for _, kv := range kvs {
+		k := string(kv.k)
+		cids = append(cids, cidShort(k[strings.LastIndex(k, "/")+1:]))
+	}
+	sort.Strings(cids)
+	return strings.Join(cids, " ")
 }
 
 func (r *c15Run) equalAB() bool {
